@@ -399,7 +399,7 @@ func TestC07(t *testing.T) {
 		"oracle: flat element sequence identical to the input's, shape from the ONNX rule; invalid requests must give an error value (a panic is not an error)")
 	defer reportKnownFindings("C07")
 
-	check(t, "ops", 40000, 150000, func(rt *rapid.T) {
+	check(t, "ops", 40000, 400000, func(rt *rapid.T) {
 		c := c07Gen(rt)
 		res := runOp(c.op, c.node, c.inputs())
 		cls := []string{"op-" + c.op, fmt.Sprintf("rank-%d", len(c.x.Shape()))}
